@@ -569,7 +569,10 @@ Fixpoint scan_fields_st (m : fmode) (quoted : bool) (eq cm : N) (p1 p2 : N) (l :
     buf[i-2] is whitespace or the last byte of the key, which is never a backslash
     (the space would have been escaped). *)
 Definition scan_fields (rest : bytes) : fres :=
-  scan_fields_st FNorm false 0 0 (skip_ws_last 0 rest) 0 (skip_ws rest).
+  (* an '=' that is the very first byte of the fields section ([i == start]) has no key,
+     whatever whitespace byte (space, TAB, NUL) was skipped before it *)
+  if match skip_ws rest with c :: _ => c =? EQ | [] => false end then Err E_MISSING_FIELD_KEY
+  else scan_fields_st FNorm false 0 0 (skip_ws_last 0 rest) 0 (skip_ws rest).
 
 (** walkFields: split the raw fields into (raw key, raw value) with scanTo('=') and
     scanFieldValue, checking "invalid value" and the series-key size per field. *)
@@ -863,10 +866,9 @@ Definition field_value (v : bytes) : fval :=
   | [] => VEmpty
   | c :: _ =>
     if c =? DQ then
-      (* StringValue(): valueBuf[1:len-1] — QUIRK: PANICS (slice bounds [1:0]) when the value
-         is a lone double quote; rendered as VErr 3 *)
+      (* StringValue(): "" when the value is a lone double quote (len < 2), else valueBuf[1:len-1] *)
       match tl v with
-      | [] => VErr 3
+      | [] => VStr []
       | _ => VStr (unescape_string_field (removelast (tl v)))
       end
     else if num_type_start c then
